@@ -249,11 +249,11 @@ class SRTM30:
             given rectangle.
         """
         i = (90 - lat_max) / SRTM30._dlat
-        i_max = np.trunc(i)
-        if not i_max < i:
-            i_max = i_max + 1
+        i_max = np.trunc(i) + 1
         i = (90 - lat_min) / SRTM30._dlat
         i_min = np.trunc(i)
+        if i_min < i:
+            i_min = i_min + 1
         lat_grid = 90 + 0.5 * SRTM30._dlat - np.arange(i_max, i_min + 1) * SRTM30._dlat
 
         j = (lon_max + 180) / SRTM30._dlon
